@@ -274,11 +274,14 @@ sts_n(Source *source, Sink *sink, const size_t n)
         const ssize_t rc = shortcut
             ? sts_atmost_via_source(source, sink, rest)
             : sts_atmost(source, sink, rest);
-        if (rc == -ENOMEM) {
+        if (rc == -ENOMEM && shortcut == false
+            && channel_has_buffer_ext(source, sink))
+        {
             /* This means that the sink buffer is out of memory. If the source
              * can provide a buffer in the next iteration, we can go on,
-             * otherwise we cannot. */
-            shortcut = channel_has_buffer_ext(source, sink);
+             * otherwise we cannot. Going on is tried once: Repeating a step
+             * that failed before pulls octets out of the source for ever. */
+            shortcut = true;
             continue;
         } else if (rc < 0) {
             return rc;
@@ -299,10 +302,10 @@ sts_drain(Source *source, Sink *sink)
         rc = shortcut
             ? sts_atmost_via_source(source, sink, 0u)
             : sts_atmost(source, sink, 0u);
-        if (rc == -ENOMEM) {
+        if (rc == -ENOMEM && shortcut == false) {
             /* This means that the sink buffer is out of memory. If the source
              * can provide a buffer in the next iteration, we can go on,
-             * otherwise we cannot. */
+             * otherwise we cannot. Going on is tried once. */
             shortcut = true;
             continue;
         } else if (rc < 0) {
